@@ -574,26 +574,26 @@ func (d *Document) updateEndnotesFile() {
 
 // addFootnoteRelationship 添加脚注关系
 func (d *Document) addFootnoteRelationship() {
-	relationshipID := fmt.Sprintf("rId%d", len(d.relationships.Relationships)+1)
-
+	// 脚注/尾注部件由主文档使用，关系属于 word/_rels/document.xml.rels（目标相对于 word/），
+	// 而不是包级的 _rels/.rels（那里 "footnotes.xml" 指向不存在的部件）
 	relationship := Relationship{
-		ID:     relationshipID,
+		ID:     d.nextDocumentRelationshipID(),
 		Type:   "http://schemas.openxmlformats.org/officeDocument/2006/relationships/footnotes",
 		Target: "footnotes.xml",
 	}
-	d.relationships.Relationships = append(d.relationships.Relationships, relationship)
+	d.documentRelationships.Relationships = append(d.documentRelationships.Relationships, relationship)
 }
 
 // addEndnoteRelationship 添加尾注关系
 func (d *Document) addEndnoteRelationship() {
-	relationshipID := fmt.Sprintf("rId%d", len(d.relationships.Relationships)+1)
-
+	// 脚注/尾注部件由主文档使用，关系属于 word/_rels/document.xml.rels（目标相对于 word/），
+	// 而不是包级的 _rels/.rels（那里 "endnotes.xml" 指向不存在的部件）
 	relationship := Relationship{
-		ID:     relationshipID,
+		ID:     d.nextDocumentRelationshipID(),
 		Type:   "http://schemas.openxmlformats.org/officeDocument/2006/relationships/endnotes",
 		Target: "endnotes.xml",
 	}
-	d.relationships.Relationships = append(d.relationships.Relationships, relationship)
+	d.documentRelationships.Relationships = append(d.documentRelationships.Relationships, relationship)
 }
 
 // GetFootnoteCount 获取脚注数量
@@ -783,12 +783,11 @@ func (d *Document) saveSettings(settings *Settings) error {
 
 // addSettingsRelationship 添加设置文件关系
 func (d *Document) addSettingsRelationship() {
-	relationshipID := fmt.Sprintf("rId%d", len(d.relationships.Relationships)+1)
-
+	// settings.xml 同样属于主文档的关系
 	relationship := Relationship{
-		ID:     relationshipID,
+		ID:     d.nextDocumentRelationshipID(),
 		Type:   "http://schemas.openxmlformats.org/officeDocument/2006/relationships/settings",
-		Target: "word/settings.xml",
+		Target: "settings.xml",
 	}
-	d.relationships.Relationships = append(d.relationships.Relationships, relationship)
+	d.documentRelationships.Relationships = append(d.documentRelationships.Relationships, relationship)
 }
